@@ -111,3 +111,118 @@ register("C13", run=run_c13, tie="coq/SegLog/Cases.v vs log/log.go, log/segment.
                     "operation moves the abstract sequence as specified; reads agree with the sequence; GetN concatenates across segments; "
                     "RemoveLTE removes whole segments up to CanLTE, never beyond i; a view's reads are unchanged by later appends. "
                     "Tie: per-step differential execution against the real package.")
+
+
+# ------------------------------------------------------------------ node-model properties
+
+# which events a property's theorems speak about (a disagreement between model and code on one of
+# these breaks the tie for that property); monitor tags the property owns
+NODE_PROPS = {
+ "C01": dict(events={"EVoteReq", "EVoteResult", "ETimeout", "ETimeoutNowReq", "ERestart", "LReplUpdate", "EAppendReq"}, tags={"C01"}),
+ "C02": dict(events={"EAppendReq", "ESnapReq", "LClient", "LReplUpdate", "LFlrSend", "LFlrResp", "EVoteReq", "ERestart", "LFlrSnapInstalled"}, tags={"C02"}),
+ "C03": dict(events={"EAppendReq", "ESnapReq", "LClient", "LReplUpdate", "ERestart", "ESnapRun"}, tags={"C03"}),
+ "C04": dict(events={"EAppendReq", "LFlrSend", "LClient", "ESnapReq", "ERestart"}, tags={"C04"}),
+ "C05": dict(events={"EVoteReq", "EVoteResult", "ETimeout", "ETimeoutNowReq", "ERestart", "LReplUpdate", "ETask"}, tags={"C05"}),
+ "C06": dict(events={"LReplUpdate", "LFlrResp", "EAppendReq", "LClient", "LChangeConfig"}, tags={"C06"}),
+ "C07": dict(events={"LClient", "ETask", "LReplUpdate", "LTransfer"}, tags={"C07"}),
+ "C08": dict(events={"LChangeConfig", "LReplUpdate", "LClient", "EAppendReq", "LTransferTimeout", "ERestart"}, tags={"C08"}),
+ "C09": dict(events={"ESnapRun", "ESnapTaken", "ETask", "ESnapReq", "LFlrSnapInstalled", "LFlrUpdate", "LFlrSend", "ERestart", "LReplUpdate"}, tags={"C09"}),
+ "C11": dict(events={"ETimeout", "ETimeoutNowReq", "ETask", "LReplUpdate", "LChangeConfig", "EAppendReq", "LClient"}, tags={"C11"}),
+ "C12": dict(events={"ESnapRun", "ESnapTaken", "ETask", "ESnapReq", "ERestart"}, tags={"C12"}),
+ "C15": dict(events=None, tags={"C15"}),
+ "C16": dict(events={"LTransfer", "LTimeoutNowResult", "LTransferTimeout", "LNewTermTimeout", "ETimeoutNowReq", "LClient", "LReplUpdate", "LChangeConfig"}, tags={"C16"}),
+ "C17": dict(events={"EVoteReq", "LFlrResp", "LFlrSend", "ETimeout", "LReplUpdate"}, tags={"C17"}),
+ "C19": dict(events=None, tags={"C19"}),
+}
+
+
+def event_kind(desc_case_line):
+    return desc_case_line
+
+
+def run_node(pid, tier, seed):
+    spec = NODE_PROPS[pid]
+    wd = vlib.workdir(pid)
+    if tier == "quick":
+        plan = [("cluster", [seed, 8, 250]), ("node1", [seed, 16, 40])]
+    else:
+        plan = [("cluster", [seed, 160, 400]), ("node1", [seed, 300, 60])]
+    metas, broken, viols = {}, None, []
+    for drv, args in plan:
+        rc, out = vlib.vh(["raft", drv] + args + [wd], timeout=3000)
+        if rc != 0:
+            # the harness itself died (e.g. SIGSEGV through an unmapped segment): that is a finding for C15/C09
+            sig = "harness-died " + drv
+            viols.append({"signature": sig, "detail": out[-1500:], "found": True,
+                          "replay": {"property": pid, "kind": "process died while driving the real code", "driver": drv, "args": args,
+                                     "output_tail": out[-3000:]}})
+            continue
+        metas[drv] = json.load(open(os.path.join(wd, drv + "_meta.json")))
+    total, states, dist, samples = 0, 0, {}, []
+    for drv, meta in metas.items():
+        total += meta["cases"]
+        states += meta["distinct_states"]
+        for k, v in meta["dist"].items():
+            dist[drv + ":" + k] = v
+        samples += meta["samples"][:2]
+        files = sorted(glob.glob(os.path.join(wd, "cases_%s_*.v" % drv)))
+        res = vlib.run_case_files(files)
+        for f in files:
+            ok, ids, log = res[f]
+            if not ok:
+                broken = "model evaluation failed on %s: %s" % (os.path.basename(f), log[-1200:])
+                continue
+            for i in ids:
+                d = meta["desc"].get(str(i), "?")
+                kind = meta.get("kinds", {}).get(str(i))
+                if spec["events"] is not None and kind is not None and kind not in spec["events"]:
+                    continue
+                viols.append({"signature": "node-mismatch %s" % (kind or d), "found": True,
+                              "detail": "model and implementation disagree on case %d (%s)" % (i, d),
+                              "replay": {"property": pid, "kind": "node-correspondence", "case_id": i, "case": d, "case_file": f,
+                                         "event": kind, "how": "coqc evaluates Verif.Node.Cases.mismatches (and explain_all) on the file"}})
+        for fnd in meta.get("findings") or []:
+            prop, sig, detail, trace = (fnd.split("|", 3) + ["", "", ""])[:4]
+            if prop in spec["tags"]:
+                viols.append({"signature": "monitor %s" % sig, "detail": detail, "found": True,
+                              "replay": {"property": pid, "kind": "monitor on the implementation (simulated cluster)", "monitor": sig,
+                                         "what": detail, "driver": drv, "seed": seed, "schedule_tail": trace.split(" ; ")}})
+        for e in meta.get("errors") or []:
+            viols.append({"signature": "driver-error " + e[:40], "detail": e, "found": True,
+                          "replay": {"property": pid, "kind": "driver error", "what": e}})
+    # dedupe by signature (keep first 3 of each)
+    seen, out = {}, []
+    for v in viols:
+        k = v["signature"]
+        seen[k] = seen.get(k, 0) + 1
+        if seen[k] <= 3:
+            out.append(v)
+    cov = {"evaluations": total, "distinct_nontrivial": states,
+           "rule": "events executed on real *Raft values by the deterministic simulator (cluster driver: 1-5 nodes, elections, replication with "
+                   "probe/pipeline discipline, loss/duplication/delay, membership changes, transfers, snapshots, crashes; node1 driver: one node "
+                   "under adversarial requests with any coordinates); each event is compared from the implementation's own pre-state with the "
+                   "model: reply, task replies, messages, full post-state. Monitors run on the implementation after every event. "
+                   "distinct_nontrivial = distinct pre-states (full node dumps)",
+           "samples": samples[:4], "distribution": dist, "traces_validated_against_impl": total}
+    return {"violations": out, "coverage": cov, "tie_broken": broken}
+
+
+NODE_ASSUME = ["sockets, timers and goroutine scheduling are replaced by the simulator's scheduler (events); the two skeletons it mirrors "
+               "(role transitions of stateLoop, probe/pipeline phases of replicate) are modelled, not verified",
+               "value.set (rename + directory sync) is atomic; no storage or FSM I/O errors",
+               "all nodes of a cluster are bootstrapped with the same configuration; node ids are unique"]
+NODE_TRUST = ["state dump (abstraction function) in go/inpkg/sim.go / sim_cluster.go", "boolean equalities and the map-order oracle search of Node/Cases.v"]
+
+
+def reg_node(pid, level_text, extra_assume=()):
+    register(pid, run=run_node, tie="coq/Node/Cases.v vs rpc.go, follower.go, candidate.go, leader.go, config.go, changeconfig.go, "
+             "transfer.go, fsm.go, replication.go, storage.go (per-event differential execution)",
+             assumptions=NODE_ASSUME + list(extra_assume), trusted=NODE_TRUST, level_text=level_text)
+
+
+reg_node("C01", "Theorems: election safety for every reachable state of the abstract vote layer (any cluster size, any interleaving of "
+         "starts, grants, bumps, step-downs, counts, wins, losses, restarts): at most one elected node per term, every leader was elected, one "
+         "vote per (term, voter), every elected node has a majority of recorded votes; two majorities meet. Tie: the node model's vote handlers "
+         "(on_vote_request, start_election, on_vote_result, restart) are compared event by event with the real handlers; monitor: two nodes "
+         "leader in one term on the simulated cluster.",
+         ["static voter set in the abstract theorem; under membership changes safety additionally needs overlapping majorities (C08)"])
